@@ -848,6 +848,11 @@ def gen_trace_case(rng, profile):
         for k in list(task):
             if rng.random() < 0.5:
                 dflt[k] = task.pop(k)
+            elif rng.random() < 0.4:
+                # the same policy at both levels with different values: the task level wins
+                other = gen_desc(rng, {k: 1.0}, 0.3, 0.0, timeout_ok=(k == 'timeout'))
+                if k in other and other[k] != task[k]:
+                    dflt[k] = other[k]
         dflt = dflt or None
     mode = rng.choice(['due', 'due', 'due', 'late', 'any'])
     return task, dflt, mode
@@ -991,7 +996,9 @@ def oracle_trace(ctx, task, dflt, mode, events, snaps, crash):
             (fired['name'] == '_continue_task' and (pre['state'] != 'DELAYED' or last_change > fired['born'])) or
             (fired['name'] == '_complete_task' and (pre['state'] != 'DELAYED' or last_change > fired['born'])))
         if stale and (changed or crashed_here):
-            if True:
+            # (a completion job that finds the task completed is ignored by Task.complete: if it is not, that is
+            # judged below as completed-task-changed, not as this root cause)
+            if fired['name'] == '_continue_task' or pre['state'] not in COMPLETED:
                 sig = 'stale-continue-job' if fired['name'] == '_continue_task' else 'stale-wait-after-job'
                 cons = []
                 if pre['state'] in COMPLETED:
@@ -1008,7 +1015,7 @@ def oracle_trace(ctx, task, dflt, mode, events, snaps, crash):
                           'since (timeout / forced failure): %s' % (fired['name'], fired['born'], idx, pre['state'],
                                                                    '; '.join(cons) or 'the task changed'))
                 return out
-        if is_act and ev[1] in zombies and changed:
+        if is_act and ev[1] in zombies and changed and pre['state'] not in COMPLETED:
             fail('late-result-of-timed-out-attempt',
                  'attempt %d was RUNNING when the timeout expired (task failed by the timer%s); its late result %s at event %d '
                  'changed the task: %s -> %s%s' % (ev[1] + 1, ', then retried' if len(pre['acts']) > ev[1] + 1 else '', ev[2], idx,
